@@ -484,3 +484,110 @@ def _eval_promoted(p):
             elif rv[0] == "use":
                 env[dst] = env.get(rv[1][1][0])
     return env.get(0)
+
+
+def backward_slice(body, place, limit=600):
+    """Backward data-dependence closure of a place, following every operand of every definition (for calls: all
+    arguments) and writes through `&mut` borrows handed to calls. Returns dict with
+    'calls': {callee path}, 'args': {arg index}, 'fields': {field names}, 'consts': [values], 'locals': {locals}"""
+    calls, args, fields, consts = set(), set(), set(), []
+    seen = set()
+    work = [place[0]]
+    for e in place[1:]:
+        if isinstance(e, list) and e[0] == "f" and e[2]:
+            fields.add(e[2])
+    n = 0
+    # index: local -> calls that receive `&mut local` (possible writers)
+    mut_writers = {}
+    for bb, t in body.calls():
+        for ai, a in enumerate(t["args"]):
+            l = op_local(a)
+            if l is None:
+                continue
+            for d in body.defs().get(l, []):
+                if d[0] == "stmt" and d[4][0] == "refmut":
+                    mut_writers.setdefault(d[4][1][0], []).append((bb, t, ai))
+    while work and n < limit:
+        l = work.pop()
+        if l in seen:
+            continue
+        seen.add(l)
+        n += 1
+        if 1 <= l <= body.argc:
+            args.add(l)
+        for d in body.defs().get(l, []):
+            ops = []
+            if d[0] == "stmt":
+                rv = d[4]
+                k = rv[0]
+                if k == "use":
+                    ops = [rv[1]]
+                elif k in ("ref", "refmut", "rawptr", "discr"):
+                    ops = [("c", rv[1])]
+                elif k == "cast":
+                    ops = [rv[2]]
+                elif k == "bin":
+                    ops = [rv[2], rv[3]]
+                elif k == "un":
+                    ops = [rv[2]]
+                elif k == "agg":
+                    ops = list(rv[2])
+                elif k == "repeat":
+                    ops = [rv[1]]
+            elif d[0] == "call":
+                t = d[2]
+                if "callee" in t:
+                    calls.add(callee(t))
+                    calls.add(callee_decl(t))
+                ops = list(t["args"])
+            for o in ops:
+                if o[0] == "k":
+                    consts.append(o[1].get("v") if o[1].get("v") is not None else o[1].get("item"))
+                    continue
+                p = o[1]
+                for e in p[1:]:
+                    if isinstance(e, list) and e[0] == "f" and e[2]:
+                        fields.add(e[2])
+                    if isinstance(e, list) and e[0] == "i":
+                        work.append(e[1])
+                work.append(p[0])
+        for (bb, t, ai) in mut_writers.get(l, []):
+            if "callee" in t:
+                calls.add(callee(t))
+            for o in t["args"]:
+                p = op_place(o)
+                if p is not None:
+                    work.append(p[0])
+    return {"calls": calls, "args": args, "fields": fields, "consts": consts, "locals": seen}
+
+
+def base_local(body, place, through=None, depth=0):
+    """the local whose storage a (reference) place ultimately denotes: follows `&`, `&mut`, reborrows, moves and
+    deref-like pass-through calls. Returns local index or None if ambiguous."""
+    through = through or re.compile(r"Deref>::deref$|DerefMut>::deref_mut$|AsRef<.*>>::as_ref$|AsMut<.*>>::as_mut$|Borrow(Mut)?<.*>>::borrow(_mut)?$")
+    l = place[0]
+    if depth > 30:
+        return None
+    defs = [d for d in body.defs().get(l, []) if d[0] in ("stmt", "call") and (d[0] == "call" or len(d[3]) == 1)]
+    if len(defs) != 1:
+        return l
+    d = defs[0]
+    if d[0] == "stmt":
+        rv = d[4]
+        if rv[0] in ("ref", "refmut", "rawptr"):
+            src = rv[1]
+            if len(src) == 1:
+                # `&_3`: _3 is the storage
+                inner = [x for x in body.defs().get(src[0], []) if x[0] == "stmt" and x[4][0] in ("ref", "refmut") or (x[0] == "stmt" and x[4][0] == "use" and x[4][1][0] in ("c", "m"))]
+                if not inner:
+                    return src[0]
+            return base_local(body, src, through, depth + 1)
+        if rv[0] == "use" and rv[1][0] in ("c", "m"):
+            return base_local(body, rv[1][1], through, depth + 1)
+        if rv[0] == "cast" and rv[2][0] in ("c", "m"):
+            return base_local(body, rv[2][1], through, depth + 1)
+        return l
+    t = d[2]
+    if "callee" in t and t["args"] and (through.search(callee(t)) or through.search(callee_decl(t))) and op_place(t["args"][0]) is not None:
+        return base_local(body, op_place(t["args"][0]), through, depth + 1)
+    return l
